@@ -177,26 +177,48 @@ func c18(c *Ctx) {
 			c.Res.Inconclusive++
 		}
 	}
-	// keep-alive: PINGs of its own exactly when PingFreq is positive
+	// keep-alive: PINGs of its own, periodically, exactly when PingFreq is positive - whether the server is silent, chatty,
+	// or pinging the client itself (a link that looks alive is no reason to stop: the property says "periodically")
 	for _, freq := range []time.Duration{0, 40 * time.Millisecond} {
-		sess, err := newSession(func(cfg *client.Config) { cfg.PingFreq = freq }, nil)
-		if err != nil {
-			c.Res.Inconclusive++
-			continue
-		}
-		sess.srv.WaitLines(2, 2*time.Second)
-		time.Sleep(300 * time.Millisecond)
-		pings := 0
-		for _, l := range sess.srv.Lines() {
-			if strings.HasPrefix(l, "PING :") {
-				pings++
+		for _, server := range []string{"silent", "chatty", "pinging"} {
+			if freq == 0 && server != "silent" && c.Quick() {
+				continue
 			}
-		}
-		sess.close()
-		c.Res.Evaluations++
-		c.Dist(fmt.Sprintf("pingfreq=%v", freq))
-		if (freq > 0) != (pings > 0) {
-			c.SpecFail("spec", fmt.Sprintf("PingFreq=%v: %d client PINGs in 300ms", freq, pings), "", "client pings must be sent exactly when PingFreq is positive", map[string]interface{}{"op": "pingfreq", "freq_ns": int64(freq), "pings": pings})
+			sess, err := newSession(func(cfg *client.Config) { cfg.PingFreq = freq }, nil)
+			if err != nil {
+				c.Res.Inconclusive++
+				continue
+			}
+			sess.srv.WaitLines(2, 2*time.Second)
+			countPings := func() int {
+				n := 0
+				for _, l := range sess.srv.Lines() {
+					if strings.HasPrefix(l, "PING :") {
+						n++
+					}
+				}
+				return n
+			}
+			// ten periods of 40 ms; on a badly loaded machine up to three seconds until the third PING has been seen
+			// (a slow run is never a verdict: only "no PINGs at all after 75 periods" is)
+			stop, hard := time.Now().Add(400*time.Millisecond), time.Now().Add(3*time.Second)
+			for k := 0; time.Now().Before(stop) || (freq > 0 && countPings() < 3 && time.Now().Before(hard)); k++ {
+				switch server {
+				case "chatty":
+					sess.srv.SendLine(fmt.Sprintf(":n!u@h PRIVMSG #c :chatter %d", k))
+				case "pinging":
+					sess.srv.SendLine(fmt.Sprintf("PING :srv-%d", k))
+				}
+				time.Sleep(8 * time.Millisecond)
+			}
+			pings := countPings()
+			sess.close()
+			c.Res.Evaluations++
+			c.Dist(fmt.Sprintf("pingfreq=%v/%s", freq, server))
+			if (freq > 0) != (pings > 0) || (freq > 0 && pings < 3) {
+				c.SpecFail("spec", fmt.Sprintf("PingFreq=%v, %s server: %d client PINGs in 0.4 - 3 s", freq, server, pings), "", "client pings must be sent periodically exactly when PingFreq is positive",
+					map[string]interface{}{"op": "pingfreq", "freq_ns": int64(freq), "server": server, "pings": pings})
+			}
 		}
 	}
 	c.RunCases(cases)
